@@ -70,7 +70,9 @@ def model_check(rep, cases, impl, tag='C14'):
 def run(rep, tier, seed, replay=None):
     res, changed = proof_stage(rep, 'C14', extra_trusted=[
         'Model/Tree.v is a hand transcription of src/tree/taffy_tree.rs (structural methods) and of slotmap basic.rs / secondary.rs '
-        '(LIFO free list, version bump, (idx, version) keys); tied to the code only by the correspondence check',
+        '(LIFO free list, version bump, (idx, version) keys); 14 of its methods are proved equal (C14_translated_*_is_model) to the bodies '
+        'translator/gen_tree.py translates from the source on every run (Gen/TreeBodiesGen.v, statement semantics Model/TreeImp.v); the slotmap '
+        'semantics, new_leaf_with_context, set_node_context and clear are tied to the code only by the correspondence check',
         'NodeData reduced to has_context; mark_dirty reduced to its `nodes[key]` index (all caches are empty while no layout is computed)',
         'u32 version wrap-around is modelled (wrap32) but C14_slot_reuse / C14_ctx_inv_preserved assume it has not happened (premise no_wrap); '
         'not modelled: "SlotMap is full" panic (2^32 slots), allocation failure, the cache part of mark_dirty',
